@@ -30,7 +30,7 @@ def _by_position(x):
 
 class C02Oracle(Oracle):
     def state(self, w):
-        return wf.inv_c02(w)
+        return wf.inv_c02(w) + wf.held_views(w)
 
     def pre(self, w, ev):
         if ev[0] == "instance.reference=":
